@@ -4603,7 +4603,12 @@ class _TensorDictKeysView:
         else:
             # thanks to _unravel_key_to_tuple we know the key is a tuple
             if len(key) == 1:
-                return key[0] in self._keys()
+                if key[0] not in self._keys():
+                    return False
+                # same filter as __iter__
+                return not self.leaves_only or self.is_leaf(
+                    self.tensordict.entry_class(key[0])
+                )
             elif self.include_nested:
                 item_root = self.tensordict._get_str(key[0], default=None)
                 if item_root is not None:
@@ -4624,7 +4629,11 @@ class _TensorDictKeysView:
                                 return False
                         else:
                             leaf_td = item_root
-                        return key[-1] in leaf_td.keys()
+                        if not self.leaves_only:
+                            return key[-1] in leaf_td.keys()
+                        return key[-1] in leaf_td.keys(
+                            leaves_only=True, is_leaf=self.is_leaf
+                        )
                 return False
             # this is reached whenever there is more than one key but include_nested is False
             if all(isinstance(subkey, str) for subkey in key):
